@@ -69,9 +69,16 @@ def run(ctx, config='rel-all'):
         d, c = lin(r) if r is not None else ({}, 0)
         ab_terms = [k for k, v in d.items() if v == 1 and k[0] == 'load' and k[1][0] == 'fld' and k[1][2] == 'ChunkFooter.allocated_bytes' and is_ccf_load(k[1][1][1])]
         cnt_terms = [(k, v) for k, v in d.items() if k[0] == 'call' and k[1].endswith('Iterator::count')]
-        okv = c == 0 and len(d) == 2 and len(ab_terms) == 1 and len(cnt_terms) == 1 and cnt_terms[0][1] == footer_size[1]
+        its = [(k[2][0], v) for k, v in cnt_terms]
+        # a hand-written counting loop over the same iterator denotes the same number as Iterator::count
+        for k, v in d.items():
+            if k[0] == 'opaque':
+                ci = arena.counted_iterator(I, res, k)
+                if ci is not None:
+                    its.append((ci, v))
+        okv = c == 0 and len(d) == 2 and len(ab_terms) == 1 and len(its) == 1 and its[0][1] == footer_size[1]
         if okv:
-            it = cnt_terms[0][0][2][0]
+            it = its[0][0]
             start = field_of(it, 'footer') if it[0] == 'agg' else None
             okv = start is not None and is_ccf_load(start)
         if okv:
